@@ -3,6 +3,7 @@ package main
 import (
 	"fmt"
 	"go/token"
+	"golang.org/x/tools/go/ssa"
 	"strings"
 )
 
@@ -503,4 +504,50 @@ func handlerThrowLint(w *World, r *Report, rule string) {
 		}
 	}
 	r.floor(rule, "catch handlers in the embedded headers", n, 3)
+}
+
+// loaderKeepsHeaderRule: the definitions of the embedded headers (not, cond, reduce, …) are the language programs
+// get; a loader that binds a Go function under one of those names after the header was read replaces the
+// definition for every program, with whatever the Go version does for the values the header's version handled.
+func loaderKeepsHeaderRule(w *World, r *Report, rule string) {
+	r.rule(rule, "no Go code of the library binds (a scope's Set with a literal symbol) a name that one of the embedded lisp headers defines: what a program gets under a header's name is the header's definition")
+	files, err := w.lispFiles()
+	if err != nil {
+		r.undecided(rule, nil, "lisp headers", token.NoPos, err.Error())
+		return
+	}
+	defined := map[string]string{}
+	for _, f := range files {
+		for _, form := range f.forms {
+			if (form.head() == "def" || form.head() == "defmacro") && len(form.items) >= 2 && form.items[1].kind == "sym" {
+				defined[form.items[1].text] = fmt.Sprintf("%s:%d", f.path, form.line)
+			}
+		}
+	}
+	n := 0
+	for _, fn := range w.Funcs {
+		if isTestFunc(w, fn) || !libraryPkg(fnPkgPath(fn)) {
+			continue
+		}
+		for _, b := range fn.Blocks {
+			for _, in := range b.Instrs {
+				ci, ok := in.(ssa.CallInstruction)
+				if !ok || !ci.Common().IsInvoke() || ci.Common().Method.Name() != "Set" || len(ci.Common().Args) != 2 {
+					continue
+				}
+				name := symbolLiteral(ci.Common().Args[0])
+				if name == "" {
+					continue
+				}
+				n++
+				where, clash := defined[name]
+				status, detail := "discharged", "no header defines "+name
+				if clash {
+					status, detail = "violated", "Go code binds "+name+", which the header defines at "+where+": programs get the Go version instead of the language's own definition (for not: every value other than true counts as false)"
+				}
+				r.addRaw(rule, w.fnName(fn), "binding of "+name+" by Go code", w.pos(in.Pos()), status, detail)
+			}
+		}
+	}
+	r.floor(rule, "names bound by Go code with a literal symbol", n, 1)
 }
